@@ -60,10 +60,10 @@ let parse_history line =
   | _ -> failwith ("bad history line: " ^ line)
 
 (* ---------- exploration: breadth first over model states, to a fixpoint ---------- *)
-let explore prim cfg max_states out =
+let explore ?(mode="L") prim cfg max_states out =
   let m = machine prim in
   let s0 = m.Base.m_init cfg in
-  let key s = Marshal.to_string s [Marshal.No_sharing] in
+  let key s = Marshal.to_string (m.Base.m_key s) [Marshal.No_sharing] in
   let seen = Hashtbl.create 65537 in
   let q = Queue.create () in
   Hashtbl.add seen (key s0) (); Queue.add (s0, [], 0) q;
@@ -74,7 +74,7 @@ let explore prim cfg max_states out =
     List.iter (fun o ->
       let (s', _) = m.Base.m_step s o in
       incr trans;
-      output_string out (str_history prim cfg "L" (List.rev (o :: rpath))); output_char out '\n';
+      output_string out (str_history prim cfg mode (List.rev (o :: rpath))); output_char out '\n';
       let k = key s' in
       if not (Hashtbl.mem seen k) then begin
         if !states >= max_states then truncated := true
@@ -152,6 +152,54 @@ let compare_files hist_file obs_file =
   done with End_of_file -> ());
   Printf.eprintf "{\"histories\":%d,\"steps_compared\":%d,\"mismatches\":%d}\n" !lines !steps !mism
 
+(* ---------- monitors evaluated on observed traces (mode A lines) ---------- *)
+let obs_of_string g : Base.obs =
+  let f = parse_obs g in
+  let get k = try nlist (List.assoc k f) with Not_found -> [] in
+  { Base.o_res = get "r"; o_wake = get "w"; o_val = get "v"; o_probe = get "p";
+    o_term = get "t"; o_queue = get "q"; o_alloc = (match get "a" with [x] -> x | _ -> N0) }
+
+(* first failing prefix length of a trace under monitor [which], or None *)
+let first_failure m which cfg tr =
+  if m.Base.m_monitor which cfg tr then None
+  else begin
+    let arr = Array.of_list tr in
+    let n = Array.length arr in
+    let res = ref n in
+    (try for i = 1 to n do
+      if not (m.Base.m_monitor which cfg (Array.to_list (Array.sub arr 0 i))) then (res := i; raise Exit)
+    done with Exit -> ());
+    Some !res
+  end
+
+let monitor_files which hist_file obs_file use_model =
+  let hc = open_in hist_file in
+  let oc = if use_model then None else Some (open_in obs_file) in
+  let lines = ref 0 and bad = ref 0 and checked = ref 0 in
+  (try while true do
+    let hl = input_line hc in
+    let ol = match oc with Some c -> (try input_line c with End_of_file -> "") | None -> "" in
+    incr lines;
+    let h = parse_history hl in
+    if h.mode = "A" then begin
+      let m = machine h.prim in
+      let obs = if use_model then Base.m_run m (m.Base.m_init h.cfg) h.ops
+                else List.map obs_of_string (if ol = "" then [] else split_on ';' ol) in
+      if List.length obs = List.length h.ops then begin
+        incr checked;
+        let tr = List.combine h.ops obs in
+        match first_failure m which h.cfg tr with
+        | None -> ()
+        | Some i ->
+            incr bad;
+            let rec take n l = if n = 0 then [] else match l with [] -> [] | x :: r -> x :: take (n-1) r in
+            Printf.printf "{\"line\":%d,\"prefix\":%d,\"history\":\"%s\"}\n" !lines i
+              (str_history h.prim h.cfg "A" (take i h.ops))
+      end
+    end
+  done with End_of_file -> ());
+  Printf.eprintf "{\"histories\":%d,\"checked\":%d,\"failing\":%d}\n" !lines !checked !bad
+
 (* ---------- print the model's own trace ---------- *)
 let print_model hist_file =
   let hc = if hist_file = "-" then stdin else open_in hist_file in
@@ -166,8 +214,11 @@ let print_model hist_file =
 let () =
   match Array.to_list Sys.argv with
   | _ :: "explore" :: prim :: cfg :: max :: _ -> explore prim (nlist cfg) (int_of_string max) stdout
+  | _ :: "explore-full" :: prim :: cfg :: max :: _ -> explore ~mode:"A" prim (nlist cfg) (int_of_string max) stdout
   | _ :: "random" :: prim :: cfg :: seed :: count :: len :: _ ->
       random_histories prim (nlist cfg) (int_of_string seed) (int_of_string count) (int_of_string len) stdout
   | _ :: "compare" :: h :: o :: _ -> compare_files h o
   | _ :: "print" :: h :: _ -> print_model h
+  | _ :: "monitor" :: which :: h :: o :: _ -> monitor_files (n_of_string which) h o false
+  | _ :: "monitor-model" :: which :: h :: _ -> monitor_files (n_of_string which) h "" true
   | _ -> prerr_endline "usage: modelrun explore|random|compare|print ..."; exit 2
